@@ -91,6 +91,11 @@ def new_cert(key_name, issuer_id_component, pub_key, signer, start_time, end_tim
     cert_val.meta_info = MetaInfo(content_type=ContentType.KEY, freshness_period=3600000)
     cert_val.signature_info = CertificateV2SignatureInfo()
     cert_val.signature_info.validity_period = ValidityPeriod()
+    # The validity period is written in UTC: an aware datetime designates an instant, a naive one is taken as UTC
+    if start_time.utcoffset() is not None:
+        start_time = start_time.astimezone(UTC)
+    if end_time.utcoffset() is not None:
+        end_time = end_time.astimezone(UTC)
     cur_time = start_time
     not_before = cur_time.strftime('%Y%m%dT%H%M%S').encode()
     cert_val.signature_info.validity_period.not_before = not_before
